@@ -25,6 +25,7 @@ const (
 	c12NameT = 0x2c0 // "t"
 	c12NameK = 0x300 // "k" (fresh name / index key)
 	c12Huge  = 0x340 // a length word of 2^40 with no data behind it
+	c12NameU = 0x360 // "u"
 )
 
 func c12Prefix() []byte {
@@ -34,17 +35,27 @@ func c12Prefix() []byte {
 	p.Mem = append(p.Mem, gen.StrWords(c12NameM, []byte("m"))...)
 	p.Mem = append(p.Mem, gen.StrWords(c12NameT, []byte("t"))...)
 	p.Mem = append(p.Mem, gen.StrWords(c12NameK, []byte("k"))...)
+	p.Mem = append(p.Mem, gen.StrWords(c12NameU, []byte("u"))...)
 	p.Mem = append(p.Mem, gen.MemWrite{Off: c12Huge, Word: common.Hash(new(uint256.Int).Lsh(uint256.NewInt(1), 40).Bytes32())})
 	p.Steps = []gen.JStep{
 		gen.RegisterValueVar(c12NameX, uint256.NewInt(0), 0, gen.TypeA),
 		gen.RegisterRefVar(c12NameS, uint256.NewInt(1), gen.TypeA),
 		gen.RegisterRefVar(c12NameM, uint256.NewInt(2), gen.TypeB),
 		gen.RegisterRefVar(c12NameT, uint256.NewInt(4), gen.TypeA),
+		gen.RegisterRefVar(c12NameU, uint256.NewInt(5), gen.TypeA),
 	}
 	return p.Body()
 }
 
 func c12Storage() map[common.Hash]common.Hash {
+	m := c12StorageBase()
+	for k, v := range gen.EncodeString(uint256.NewInt(5), gen.PatternBytes(40)) { // out-of-place string
+		m[k] = v
+	}
+	return m
+}
+
+func c12StorageBase() map[common.Hash]common.Hash {
 	return map[common.Hash]common.Hash{
 		{}:                      common.HexToHash("0x1111111111111111111111111111111111111111111111111111111111111111"),
 		common.HexToHash("0x1"): common.HexToHash("0x6162000000000000000000000000000000000000000000000000000000000004"), // "ab"
@@ -80,6 +91,7 @@ func c12Steps() []c12Step {
 		{"VVJNAL byte", s(0xe6, n(0), n(0), n(1), A), true},
 		{"VVJNAL empty", s(0xe6, n(0), n(0), n(0), A), true},
 		{"VRJNAL short", s(0xe7, n(1), A), true},
+		{"VRJNAL long", s(0xe7, n(5), A), true},
 		// malformed
 		{"VVJNAL off32", s(0xe6, n(0), n(32), n(0), A), false},
 		{"VVJNAL off31 width32", s(0xe6, n(0), n(31), n(32), A), false},
